@@ -86,6 +86,21 @@ MUTANTS = [
     ("C01", R + "iteration/_engine.py", "for ascending, callables in grouped_by_ascending[::-1]:", "for ascending, callables in grouped_by_ascending:", "sort passes applied in the wrong order (bounded stand-in)"),
     ("C01", R + "iteration/_row_iterable.py", "            if self.stop is not None and n == self.stop:", "            if self.stop is not None and n > self.stop:", "SliceRowIterable yields one row too many (bounded stand-in)"),
     ("C01", R + "iteration/_engine.py", "return lambda row: all(c(row) for c in operand_callables)", "return lambda row: any(c(row) for c in operand_callables)", "convert_predicate turns AND into OR (bounded stand-in)"),
+    ('C17', R + 'sql/_select.py', '            target = sort._finish_apply(target)\n        if projection is not None:\n            target = projection._finish_apply(target)', '            target = sort._finish_apply(target)\n        if projection is not None:\n            target = projection._finish_apply(skip_to)', 'apply_skip stacks the projection on the skip target instead of the sorted target'),
+    ('C17', R + 'sql/_select.py', '            case BinaryOperationRelation(operation=Chain()):\n                is_compound = True', '            case BinaryOperationRelation():\n                is_compound = True', 'apply_skip flags every binary skip target as compound'),
+    ('C17', R + 'sql/_select.py', '        if not self.has_deduplication and not self.has_sort and not self.has_slice:\n            return self.skip_to, self.has_projection', '        if not self.has_deduplication and not self.has_sort:\n            return self.skip_to, self.has_projection', 'strip ignores a recorded slice'),
+    ('C17', R + 'sql/_select.py', '        if target is self.target:\n            return self', '        if target.columns == self.target.columns:\n            return self', 'Select.reapply keeps the old marker when only the columns agree'),
+    ('C17', R + 'sql/_engine.py', '                conformed_target = self.conform(target)\n                return self._append_unary_to_select(operation, conformed_target)\n            case BinaryOperationRelation', '                conformed_target = self.conform(target)\n                return conformed_target\n            case BinaryOperationRelation', 'conform drops unary operations of raw trees'),
+    ('C17', R + 'sql/_engine.py', '            case Selection():\n                if select.has_slice:', '            case Selection():\n                if False:', 'selection is pushed below an existing slice'),
+    ('C17', R + 'sql/_engine.py', '                if not select.has_deduplication:\n                    if select.has_slice:', '                if not select.has_deduplication:\n                    if False:', 'deduplication is merged below an existing slice'),
+    ('C17', R + 'sql/_engine.py', '            case Sort():\n                if select.has_slice:', '            case Sort():\n                if False:', 'sort is merged below an existing slice'),
+    ('C17', R + 'sql/_engine.py', '                return select.reapply_skip(slice=select.slice.then(operation))', '                return select.reapply_skip(slice=operation.then(select.slice))', 'slices merged in the wrong order'),
+    ('C17', R + 'sql/_engine.py', '                    projection = Projection(frozenset(lhs.columns | rhs.columns))', '                    projection = Projection(frozenset(lhs.columns))', "hoisted join projection keeps only the left operand's columns"),
+    ('C17', R + 'sql/_engine.py', '                if lhs.has_slice:\n                    lhs = Select.apply_skip(lhs)\n                if rhs.has_slice:\n                    rhs = Select.apply_skip(rhs)\n                return Select.apply_skip(operation._finish_apply(lhs, rhs))', '                return Select.apply_skip(operation._finish_apply(lhs, rhs))', 'chain operands with slices are no longer nested (relationally equivalent: rows unchanged) -- must NOT be flagged'),
+    ('C17', R + 'sql/_engine.py', '                elif select.has_projection:\n                    return select.reapply_skip(\n                        after=operation,\n                        projection=Projection(frozenset(select.columns | {tag})),\n                    )', '                elif select.has_projection:\n                    return select.reapply_skip(after=operation)', 'calculation below a projection is projected away again'),
+    ('C17', R + 'sql/_engine.py', '        return self.conform(super().transfer(target, payload))', '        return Select.apply_skip(super().transfer(target, payload))', 'sql transfer wraps without conforming (F15 returns)'),
+    ('C17', R + 'sql/_engine.py', '                if select.is_compound or tag in select.skip_to.columns:', '                if select.is_compound:', 'F24 returns'),
+    ('C17', R + 'sql/_engine.py', '                if new_rhs_needs_projection and not (new_rhs.columns - rhs.columns).isdisjoint(new_lhs.columns):', '                if False:', 'F7-sql returns'),
     ("C18", R + "iteration/_engine.py", "                        return ProjectionRowIterable(target_rows, columns)", "                        return ProjectionRowIterable(target_rows.materialized(), columns)", "projection arm materializes its input at execute time"),
     ("C18", R + "iteration/_engine.py", "                        return ChainRowIterable([self.execute(lhs), self.execute(rhs)])", "                        return ChainRowIterable([self.execute(lhs).materialized(), self.execute(rhs)])", "chain arm materializes its first operand"),
     ("C18", R + "iteration/_engine.py", "                        return target_rows.sliced(start, stop)", "                        return target_rows.materialized().sliced(start, stop)", "slice arm materializes its input"),
